@@ -28,6 +28,31 @@ class LoopSpec:
         self.old_env = None
 
 
+def defined_loop(defs, extra=None, shapes=None, **kw):
+    """loop whose mutated / grown variables are *defined* at every iteration count `it` by a
+    specification (data structure against an abstract view): defs[name](fr, it) -> value.
+    The invariant is "variable == its definition at it"; the havoc installs the definition."""
+    from .contract import same
+
+    def mk(name):
+        return lambda fr, v, it: defs[name](fr, it)
+
+    def inv(E, fr):
+        out = []
+        for name in sorted(defs):
+            if name not in E:
+                continue
+            out.extend(same(getattr(E, name), defs[name](fr, E.it), name))
+        if extra is not None:
+            out.extend(extra(E, fr))
+        return out
+    abstract = {n: mk(n) for n in defs}
+    # variables of which only the shape matters after the loop: fresh content, specified shape
+    for n, f in (shapes or {}).items():
+        abstract[n] = (lambda f: (lambda fr, v, it: f(fr, it)))(f)
+    return LoopSpec(inv, abstract=abstract, **kw)
+
+
 class World:
     def __init__(self):
         self.bind = Binder()
@@ -240,6 +265,11 @@ class RowWise:
                 return f(*zs, *[O.to_z3(x) for x in t])
             outs.append(Tn.fresh([X.shape[0]] + list(tr), content, 'real', origin='fresh:' + self.name))
         return outs
+
+    def at(self, o, rows, t=()):
+        """M_o applied to explicit rows (Tn without the leading example dimension)"""
+        ts = [r.unsqueeze(0) for r in rows]
+        return self.apply_rows(ts)[o].elem(0, *t)
 
     def package(self, outs):
         if self.k is None:
